@@ -284,3 +284,32 @@ Theorem C15_restart_nonvacuous :
     strm_start x' = (Ok tt, x'') /\ sh_params (snd x'') = [104; 64; 65536; 4; 37856; 0].
 Proof. exact (conj hist_inv_example restart_example). Qed.
 Print Assumptions C15_restart_nonvacuous.
+
+(* TIE TO THE SOURCE CODE.  gen/EnableStreaming.v is regenerated on every run by tools/translate_code.py from the BODY of
+   enable_streaming (control_handle.rs: every `let` of the size computation with the align! macro expanded, the
+   try_into, the `as` casts, `/` and `%`) and from the Sirm accessors it calls (register_map.rs: which register each
+   getter reads and each setter writes), as a Gallina function over the debug-build semantics of Rust's integer
+   operations (lib/RustInt.v).  For every alignment 2^k and all register contents the translated code never panics,
+   fails exactly when the model fails (with InvalidDevice), and otherwise writes exactly the model's six
+   (register, value) pairs in the model's order. *)
+From Cam Require Import RustInt EnableStreaming P_C15s.
+
+Theorem C15_sizes_from_source : forall k l p t (s : st),
+  0 <= k <= 31 -> 0 <= l < 2 ^ 32 -> 0 <= p < 2 ^ 64 -> 0 <= t < 2 ^ 32 ->
+  match src_enable_streaming_writes (2 ^ k) l p t with
+  | Ok ws => exists plan, compute_sizes (2 ^ k) l p t s = (Ok plan, s) /\ ws = six plan
+  | Err e => compute_sizes (2 ^ k) l p t s = (Err e, s) /\ e = Control.CE_INVALID_DEVICE
+  | Panic => False
+  end.
+Proof. exact sizes_from_source. Qed.
+Print Assumptions C15_sizes_from_source.
+
+Theorem C15_requirement_reads_from_source : map fst src_es_reads = [16; 8; 20] /\ map snd src_es_reads = [4; 8; 4].
+Proof. exact reads_from_source. Qed.
+Print Assumptions C15_requirement_reads_from_source.
+
+(* x & !(2^k - 1) on w bits (what align! computes) is rounding down to a multiple of 2^k (what the model computes) *)
+Theorem C15_mask_is_round_down : forall y k w, 0 <= k <= w -> 0 <= y < 2 ^ w ->
+  Z.land y (2 ^ w - 1 - (2 ^ k - 1)) = y - y mod 2 ^ k.
+Proof. exact land_high_mask. Qed.
+Print Assumptions C15_mask_is_round_down.
